@@ -25,7 +25,7 @@ ASSUMPTIONS = [
     "durations are not observed",
     "the census walk in this module is the reference (it shares no code with behave's traversals)",
 ]
-REQUIRED = {"reporter.tables_match_census": {"quick": 800, "thorough": 40000},
+REQUIRED = {"wild.summary_counts_match_census": {"quick": 8, "thorough": 300}, "reporter.tables_match_census": {"quick": 800, "thorough": 40000},
             "reporter.text_matches_census": {"quick": 4000, "thorough": 200000},
             "collector.counts_match_census": {"quick": 800, "thorough": 40000},
             "collector.text_matches_census": {"quick": 4000, "thorough": 200000},
@@ -368,6 +368,10 @@ def run(spec, mon):
     for i in range(2 if tier == "quick" else 25):
         case = RB.gen_case(rng, gen={"outcomes": [o for o in OUTCOMES if o not in ("ki",)], "p_nonpass": 0.35, "max_features": 2}, p_stop=0.1, p_dry=0.0)
         subprocess_summary(mon, rng, case, which=("command_line", "configuration_file", "off")[(spec["shard"] + i) % 3])
+    if spec["shard"] == 0:
+        # behave's own acceptance features as workload: the probes of bvm.wild in every behave process they spawn
+        from ..wild import run as wild
+        wild.feed(mon, ID, spec.get("tier", "quick"))
 
 
 def subprocess_summary(mon, rng, case, which="command_line"):
@@ -430,4 +434,4 @@ LEVEL_TEXT = ("Exploration: after each of thousands of real runs (all status cla
               "tables and the parsed printed text of both summary implementations in all five line formats, with the "
               "listed failing/errored scenarios, and the per-kind sums with the number of elements.")
 LEVEL_NOTE = "Trusted: census walk and text parsers in this module; generated shapes."
-TECHNIQUE = "runtime monitoring: conservation check (independent census vs reporter tables and parsed report text) over real runs"
+TECHNIQUE = "runtime monitoring: conservation check (independent census vs reporter tables and parsed report text) over real runs; plus oracle-free invariant probes armed (sitecustomize) in every behave process that the repository's own acceptance features spawn"
